@@ -462,7 +462,8 @@ func buildPred(st *jstep) (influxdb.Predicate, influxql.Expr, error) {
 			return nil, nil, err
 		}
 		st.MName = nil
-		if be, ok := m.(*influxql.BinaryExpr); ok {
+		// what Store.DeleteSeriesWithPredicate extracts: the RHS of an EQUALITY only
+		if be, ok := m.(*influxql.BinaryExpr); ok && be.Op == influxql.EQ {
 			if rhs, ok := be.RHS.(*influxql.VarRef); ok {
 				b := B(rhs.Val)
 				st.MName = &b
@@ -768,33 +769,14 @@ func obsTerm(o *jobs) string {
 }
 
 // ---- known-finding shapes (decided from the inputs) ----
-const (
-	sigEqName = "measurement-name-with-equals-parsed-as-tag"
-	sigNeqM   = "measurement-neq-shortcut"
-	sigGhost  = "series-listed-without-data-after-partial-tombstones"
-	sigPrefix = "series-key-prefix-of-another-kept-listed"
-)
-
-func hasNeqMeasurement(n *jnode) bool {
-	if n.Op == "and" || n.Op == "or" {
-		return hasNeqMeasurement(n.A) || hasNeqMeasurement(n.B)
-	}
-	return n.Op == "neq" && string(n.L.S) == "\x00"
-}
+const sigGhost = "series-listed-without-data-after-partial-tombstones"
 
 func sigOf(c *jcase) string {
-	for _, d := range c.Defs {
-		if strings.Contains(string(d.Name), "=") {
-			return sigEqName
-		}
-	}
+	// Repaired findings (measurement-neq-shortcut, series-key-prefix-of-another-kept-listed,
+	// measurement-name-with-equals-parsed-as-tag) are no longer tolerated shapes: the corpus and
+	// the generator keep producing them, any deviation is a VIOLATION again.
 	snapped := map[int]bool{}
 	partial := 0
-	for _, st := range c.Steps {
-		if (st.Op == "delete" || st.Op == "guard") && st.UseAPI && hasNeqMeasurement(st.Pred) {
-			return sigNeqM
-		}
-	}
 	for _, st := range c.Steps {
 		switch st.Op {
 		case "snap":
@@ -807,22 +789,6 @@ func sigOf(c *jcase) string {
 	}
 	if partial >= 1 {
 		return sigGhost
-	}
-	// two series whose keys are byte-prefixes of one another (m,t0=b and m,t0=b,t1=x; t0=a and t0=a\ b)
-	var keys [][]byte
-	for _, d := range c.Defs {
-		var t models.Tags
-		for _, kv := range d.Tags {
-			t = append(t, models.Tag{Key: []byte(kv[0]), Value: []byte(kv[1])})
-		}
-		keys = append(keys, models.MakeKey(d.Name, t))
-	}
-	for i := range keys {
-		for j := range keys {
-			if i != j && bytes.HasPrefix(keys[j], keys[i]) {
-				return sigPrefix
-			}
-		}
 	}
 	return ""
 }
@@ -879,18 +845,18 @@ func corpus() []jcase {
 			d(5, 5, cmp("eq", M, "m0"), true),
 		}},
 		{Kind: "prefix", Defs: []jdef{def("m0", "t0", "b"), def("m0", "t0", "b", "t1", "a")}, NShards: 1,
-			Note: "FINDING shape: series m0,t0=b loses all its data, series m0,t0=b,t1=a (same batch, key extends the first) keeps a cached value: the first stays listed", Steps: []jstep{
+			Note: "repaired finding shape: series m0,t0=b loses all its data, series m0,t0=b,t1=a (same batch, key extends the first) keeps a cached value: the first must leave the listing", Steps: []jstep{
 				w(0, jpoint{0, 0, 4, 10}, jpoint{1, 0, 0, 11}),
 				d(4, 6, cmp("eq", M, "m0"), true),
 			}},
-		{Kind: "neqm", Defs: defs, NShards: 1, Note: "FINDING shape: _measurement != m0 through the API", Steps: []jstep{
+		{Kind: "neqm", Defs: defs, NShards: 1, Note: "repaired finding shape: _measurement != m0 through the API", Steps: []jstep{
 			w(0, jpoint{0, 0, 1, 10}, jpoint{2, 0, 3, 12}, jpoint{3, 0, 3, 13}),
 			d(min, all, cmp("neq", M, "m0"), true),
 			d(min, all, cmp("neq", M, "zz"), true),
 			d(min, all, cmp("neq", M, "m1"), true),
 		}},
 		{Kind: "eqname", Defs: []jdef{def("a=b", "t0", "x"), def("a=b", "a", "c"), def("m", "a", "b")}, NShards: 1,
-			Note: "FINDING (C16) end to end: measurement a=b, predicate a = \"b\"", Steps: []jstep{
+			Note: "repaired finding (C16) end to end: measurement a=b, predicate a = \"b\"", Steps: []jstep{
 				w(0, jpoint{0, 0, 1, 10}, jpoint{1, 0, 1, 11}, jpoint{2, 0, 1, 12}),
 				d(min, all, cmp("eq", "a", "b"), true),
 			}},
